@@ -2,6 +2,7 @@ import PycModel.Properties.Tables
 import PycModel.Properties.C09
 import PycModel.Proofs.StmtSkel
 import PycModel.Proofs.TransUnit
+import PycModel.Proofs.TuFuel
 /-!
 # C01 — every valid C99 / supported-C11 translation unit is accepted
 
@@ -29,12 +30,12 @@ theorem wellformed_expressions_are_accepted (e : X) (hwf : WFX 0 e) (s : PState)
 
 /-- **Every well-formed statement is accepted**: from any state that sees the tokens of a statement
 of the fragment (followed, if it ends with an `else`-less `if`, by something other than `else`),
-`_parse_statement` returns a tree, within `13 * tokens` steps of recursion. -/
-theorem wellformed_statements_are_accepted (st : S) (hwf : WFS st) (s : PState) (rest : List Tk)
+`_parse_statement` returns a tree, within `17 * tokens` steps of recursion. -/
+theorem wellformed_statements_are_accepted (st : S) (hwf : WFS env.ty st) (s : PState) (rest : List Tk)
     (hs : SeesT env s (st.flat ++ rest))
     (hel : st.openIf = true → ∀ k v r, rest = (k, v) :: r → k ≠ "ELSE") :
-    ∃ v s', run (13 * st.ntoks) .statement s = .ok v s' := by
-  obtain ⟨s', h, _⟩ := parse_stmt st hwf s rest hs hel (13 * st.ntoks) (by have := S.fuel_linear st; omega)
+    ∃ v s', run (17 * st.ntoks) .statement s = .ok v s' := by
+  obtain ⟨s', h, _⟩ := parse_stmt st hwf s rest hs hel (17 * st.ntoks) (by have := TuFuel.S.fuel_linear st hwf; omega)
   exact ⟨_, s', h⟩
 
 open PycModel.DeclSkel PycModel.DeclParse PycModel.TransUnit in
@@ -44,12 +45,14 @@ prescribes.**  The fragment: any number of external declarations, each a file-sc
 init-declarators with pointers, qualifiers, array and `()` suffixes and assignment-expression
 initializers) or a function definition - with `()` or with a prototype parameter list of named
 parameters, whose names are registered in the body's scope - whose body is a block of such declarations and of the
-statements of `wellformed_statements_are_accepted` (which nest to any depth); every construct of
-any size.  `parseCore` is the model of `CParser.parse` on the token stream (`parse = finish ∘
+statements of `wellformed_statements_are_accepted` (which nest to any depth, nested blocks with
+declarations of their own and `for` loops whose first clause is a declaration included); every
+construct of any size.  `WFExt (fun _ => false)`: no typedef names are in scope (the fragment has
+no `typedef` declarations), so every declared name is an ordinary identifier.  `parseCore` is the model of `CParser.parse` on the token stream (`parse = finish ∘
 parseCore ∘ strip`); the fuel bound `extsFuel l` is linear in the size of the program.
 No hypothesis about the parser is left: token stream, scope stack, look-ahead scans and resets,
 `_build_declarations`, `fix_atomic_specifiers`, `fix_switch_cases` are all executed. -/
-theorem wellformed_translation_units_are_accepted (l : List Ext) (hw : ∀ e ∈ l, WFExt e) (F : Nat) (hF : extsFuel l ≤ F) :
+theorem wellformed_translation_units_are_accepted (l : List Ext) (hw : ∀ e ∈ l, WFExt (fun _ => false) e) (F : Nat) (hF : extsFuel l ≤ F) :
     (parseCore F ((extsFlat l).map (fun t => SEv.tok t.1 t.2) ++ [.eof])).1 =
       .ast (mk .FileAST none [.list (extsVals 0 l)]) :=
   parse_translation_unit l hw F hF
@@ -80,22 +83,20 @@ example :
   let prog : List Ext :=
     [.decl { specs := [("INT", "int")], first := { d := .name "g", init := some (.const "INT_CONST_DEC" "1" "int") }, more := [] },
      .fdef { specs := [("INT", "int")], d := .fn0 (.name "main"),
-             body := [.decl { specs := [("INT", "int")], first := { d := .name "x", init := some (.id "g") }, more := [] },
-                      .stmt (.ret (some (.bin "PLUS" "+" (.id "x") (.const "INT_CONST_DEC" "1" "int"))))] }]
+             body := .consD { specs := [("INT", "int")], first := { d := .name "x", init := some (.id "g") }, more := [] }
+                      (.cons (.ret (some (.bin "PLUS" "+" (.id "x") (.const "INT_CONST_DEC" "1" "int")))) .nil) }]
   have hint : SpecToks false [("INT", "int")] := by simp [SpecToks, typeSpecSimple]
   have hval : SpecVals [("INT", "int")] := by
     intro t ht; simp only [List.mem_singleton] at ht; subst ht; exact ⟨by decide, by decide⟩
-  have hw : ∀ e ∈ prog, WFExt e := by
+  have hw : ∀ e ∈ prog, WFExt (fun _ => false) e := by
     intro e he
     simp only [prog, List.mem_cons, List.not_mem_nil, or_false] at he
     rcases he with rfl | rfl
     · exact ⟨hint, hval, rfl, ⟨.name _, by intro e h; cases h; exact .const _ _ _ _ (by decide)⟩, by intro it h; cases h⟩
     · refine ⟨hint, hval, rfl, .fn0 _ (.name _) rfl, ?_⟩
-      intro it hit
-      simp only [List.mem_cons, List.not_mem_nil, or_false] at hit
-      rcases hit with rfl | rfl
-      · exact ⟨hint, hval, rfl, ⟨.name _, by intro e h; cases h; exact .id _ _⟩, by intro it h; cases h⟩
-      · exact StmtSkel.WFS.retSome _ (.bin _ 8 _ _ _ _ (by decide) (by omega) (.id _ _) (.const _ _ _ _ (by decide)))
+      refine .consD _ _ ⟨hint, hval, rfl, ⟨.name _, by intro e h; cases h; exact .id _ _⟩, by intro it h; cases h⟩
+        (fun _ _ => rfl) (.cons _ _ ?_ .nil)
+      exact StmtSkel.WFS.retSome _ (.bin _ 8 _ _ _ _ (by decide) (by omega) (.id _ _) (.const _ _ _ _ (by decide)))
   exact parse_translation_unit prog hw 200 (by decide)
 
 open PycModel.DeclSkel PycModel.DeclParse PycModel.TransUnit PycModel.Params in
@@ -127,11 +128,11 @@ example :
     [.fdefp { specs := [("INT", "int")],
               fd := { x := "add", params := { first := { specs := [("INT", "int")], d := .name "a" },
                                               more := [{ specs := [("CONST", "const"), ("INT", "int")], d := .ptr [[]] (.name "b") }] } },
-              body := [.stmt (.ret (some (.bin "PLUS" "+" (.id "a") (.pre "TIMES" "*" (.id "b")))))] }]
+              body := .cons (.ret (some (.bin "PLUS" "+" (.id "a") (.pre "TIMES" "*" (.id "b"))))) .nil }]
   have hint : SpecToks false [("INT", "int")] := by simp [SpecToks, typeSpecSimple]
   have hval : SpecVals [("INT", "int")] := by
     intro t ht; simp only [List.mem_singleton] at ht; subst ht; exact ⟨by decide, by decide⟩
-  have hw : ∀ e ∈ prog, WFExt e := by
+  have hw : ∀ e ∈ prog, WFExt (fun _ => false) e := by
     intro e he
     simp only [prog, List.mem_singleton] at he
     subst he
@@ -140,9 +141,8 @@ example :
       refine ⟨by simp [SpecToks, quals3, typeSpecSimple, isTypeTok], ?_, rfl, .ptr _ _ (by simp) (by simp) (.name _) rfl⟩
       intro t ht; simp only [List.mem_cons, List.not_mem_nil, or_false] at ht
       rcases ht with rfl | rfl <;> exact ⟨by decide, by decide⟩
-    · intro it hit; simp only [List.mem_singleton] at hit; subst hit
-      exact StmtSkel.WFS.retSome _ (.bin _ 8 _ _ _ _ (by decide) (by omega) (.id _ _)
-        (.pre _ _ _ _ (by omega) (by decide) (.id _ _)))
+    · exact .cons _ _ (StmtSkel.WFS.retSome _ (.bin _ 8 _ _ _ _ (by decide) (by omega) (.id _ _)
+        (.pre _ _ _ _ (by omega) (by decide) (.id _ _)))) .nil
   exact parse_translation_unit prog hw 200 (by decide)
 
 end PycModel.C01
